@@ -168,6 +168,52 @@ func derivePauses(ev []sym.SchedEvent, repo string) ([]pause, []string) {
 			}
 		}
 	}
+	// a Sleep after which other goroutines ran is a yield: natively the sleeper must not overtake them, so it waits
+	// at its next operation until they have got as far as they did in the schedule
+	for i, e := range ev {
+		if e.Kind != "op" || e.What != "Sleep" {
+			continue
+		}
+		next, last := -1, -1
+		for j := i + 1; j < len(ev); j++ {
+			if ev[j].G == e.G && ev[j].Kind == "op" {
+				next = j
+				break
+			}
+			if ev[j].G != e.G && ev[j].Kind == "op" {
+				last = j
+			}
+		}
+		if next < 0 || last < 0 {
+			continue
+		}
+		l := loc(ev[next])
+		p := pause{Site: l, Arrival: count(l, next, l != ev[next].Site) + 1}
+		rl := loc(ev[last])
+		p.ReleaseSite = rl
+		p.ReleaseCount = count(rl, last+1, rl != ev[last].Site)
+		if last+1 < len(ev) && ev[last+1].Kind == "blocked" && ev[last+1].G == ev[last].G {
+			p.OnArrival = true
+		}
+		if rl != ev[last].Site {
+			p.OnArrival = true
+		}
+		dup := false
+		for _, q := range ps {
+			if q.Site == p.Site && q.Arrival == p.Arrival {
+				dup = true
+			}
+		}
+		if dup {
+			continue
+		}
+		ps = append(ps, p)
+		for _, s := range []string{p.Site, p.ReleaseSite} {
+			if k := strings.Index(s, ".go:"); k > 0 {
+				files[s[:k+3]] = true
+			}
+		}
+	}
 	var fl []string
 	for f := range files {
 		if strings.HasPrefix(f, repo+"/") {
